@@ -154,6 +154,12 @@ impl V {
         *self.val += d;
     }
 }
+impl Default for V {
+    fn default() -> V {
+        cb();
+        V::new(0)
+    }
+}
 impl PartialEq for V {
     fn eq(&self, o: &V) -> bool {
         *self.val == *o.val
